@@ -40,7 +40,7 @@ func (q *QHyp) instance(js []*Term) *Term {
 // Instantiation is E-matching on ground terms: every application of a memory symbol
 // (address read) in the current assertion set triggers the hypotheses about that memory
 // family; instances may contain further reads, so this is repeated for a few rounds.
-func (c *VCtx) assertsFor(o *Obligation) []*Term {
+func (c *VCtx) assertsFor(o *Obligation, seedAll bool) []*Term {
 	var as []*Term
 	as = append(as, c.hyps[:o.NHyps]...)
 	as = append(as, o.PC)
@@ -69,8 +69,14 @@ func (c *VCtx) assertsFor(o *Obligation) []*Term {
 			}
 		}
 	}
-	for _, a := range as {
-		walk(a)
+	if seedAll {
+		for _, a := range as {
+			walk(a)
+		}
+	} else {
+		// goal-directed: seed with the reads of the path condition and the goal only
+		walk(o.PC)
+		walk(o.Goal)
 	}
 	// candidate values per (hypothesis, variable)
 	cands := map[[2]int][]*Term{}
@@ -338,9 +344,29 @@ func prepareObligation(c *VCtx, o *Obligation, mode Mode, opt solveOpts) {
 		o.Result, o.Backend = "unsat", "simplifier"
 		return
 	}
-	as := c.assertsFor(o)
+	as := c.assertsFor(o, false)
 	gv, names := interestingTerms(as)
 	text, err := Query(mode, as, gv)
+	if o.NQ > 0 {
+		// fallback with every read of every hypothesis as a trigger (used only if the
+		// goal-directed query is not unsat)
+		asFull := c.assertsFor(o, true)
+		if len(asFull) > len(as) {
+			gvF, namesF := interestingTerms(asFull)
+			m2 := mode
+			textF, errF := Query(m2, asFull, gvF)
+			if errF != nil && strings.Contains(errF.Error(), "needs bv mode") {
+				m2 = ModeBV
+				textF, errF = Query(m2, asFull, gvF)
+			}
+			if errF == nil && len(textF) < 40<<20 {
+				fileCounter++
+				o.FullFile = filepath.Join(opt.workdir, fmt.Sprintf("q%05d_full.smt2", fileCounter))
+				os.WriteFile(o.FullFile, []byte(textF), 0o644)
+				o.fullNames = namesF
+			}
+		}
+	}
 	if err != nil && mode == ModeInt && strings.Contains(err.Error(), "needs bv mode") {
 		mode = ModeBV
 		text, err = Query(mode, as, gv)
@@ -391,6 +417,20 @@ func runObligation(o *Obligation, opt solveOpts) {
 		return
 	}
 	best, tried := raceSolvers(o.QueryFile, opt.secs, opt.all)
+	if best.answer != "unsat" && o.FullFile != "" {
+		b2, t2 := raceSolvers(o.FullFile, opt.secs, opt.all)
+		b2.secs += best.secs
+		if b2.answer == "unsat" || b2.answer == "sat" || best.answer == "unknown" {
+			if b2.answer == "sat" || best.answer != "sat" || b2.answer == "unsat" {
+				best, tried = b2, t2
+				o.valNames = o.fullNames
+				o.SmallFile = ""
+			}
+		}
+	}
+	if o.FullFile != "" && !opt.keep {
+		os.Remove(o.FullFile)
+	}
 	o.Result, o.Backend, o.Secs, o.Output = best.answer, best.backend, best.secs, best.output
 	if o.bv {
 		o.Backend += "/bv"
